@@ -9,8 +9,8 @@ use crate::provenance::proof_tree::{
     Conclusion, NegationInfo, NodeId, NodeKind, ProofNode, ProofTreeBuilder, VectorSearchInfo,
 };
 use crate::provenance::unification::{
-    evaluate_comparison, find_matching_tuples, format_bound_terms, substitute_atom, Bindings,
-    BoundTerm,
+    evaluate_comparison, find_matching_tuples, format_bound_terms, substitute_atom, values_equal,
+    Bindings, BoundTerm,
 };
 use crate::value::Value;
 use std::collections::HashSet;
@@ -311,7 +311,9 @@ fn enumerate_derived_candidates(
                         for (i, bt) in bound_terms.iter().enumerate() {
                             if let BoundTerm::Concrete(expected) = bt {
                                 if let Some(actual) = tuple.get(i) {
-                                    if actual != expected {
+                                    // Numeric equality across integer widths: a constant
+                                    // in a rule head is an Int32, engine values are Int64
+                                    if !values_equal(actual, expected) {
                                         matches_pattern = false;
                                         break;
                                     }
